@@ -142,3 +142,39 @@ def run(ctx: Ctx):
         okkey = key == ("prim", "none") or key[0] == "opaque"
         ctx.check(okkey or not ident, "class-hook-typed", f"key={show(key)} hook={reg.hook_name}",
                   f"identity hook registered for {show(key)}: values of that class stay raw JSON", P_HOOKS, reg.lineno)
+
+
+_run_before_base_protocol = run
+
+
+def run(ctx: Ctx):  # noqa: F811
+    _run_before_base_protocol(ctx)
+    # base-protocol classes (not in the metamodel; emitted from hand-written templates): an `error` left as LSPAny stays a raw dict instead of a ResponseError instance
+    from . import _imgbase as _ib
+    from ..common import P_TYPES as _PT
+    for construct, ok, msg, ln in _ib.base_protocol_shape(_ib.image(ctx)):
+        ctx.check(ok, "base-protocol-positions-typed", construct, msg, _PT, ln)
+
+
+_run_before_declared_types = run
+
+
+def run(ctx: Ctx):  # noqa: F811
+    _run_before_declared_types(ctx)
+    # what "the declared class" of a position is comes from the annotation; a position whose annotation differs from the metamodel type is structured into something else (cattrs coerces silently, e.g. str(dict) for a map value annotated str)
+    from . import _imgbase as _ib
+    from ..common import P_TYPES as _PT
+    from ..pymodel import show as _show, walk_ty as _walk
+    im = _ib.image(ctx)
+    n = 0
+    for p in im.pairs:
+        if p.field is None or p.exp_ty is None:
+            continue
+        has_union = any(t_[0] == "union" and len([m_ for m_ in t_[1] if m_ != ("prim", "none")]) > 1 for t_ in _walk(p.exp_ty))
+        if False and not has_union:
+            continue
+        n += 1
+        ctx.check(p.field.resolved == p.exp_ty, "declared-type-is-metamodel-type", f"{p.cls.name}.{p.field.name}",
+                  f"{p.cls.name}.{p.field.name} is annotated {_show(p.field.resolved)}; the metamodel type is {_show(p.exp_ty)}",
+                  _PT, p.field.lineno)
+    ctx.floor("positions compared with the metamodel type", n, 1000)
